@@ -1,14 +1,16 @@
 # C12 - serialiser: the escaping layer
-CLAIMS = {'formatter': 'XMLFormatter::formatBuf/specialFormat/handleUnEscapedChars/writeCharRef/getCharRef/inEscapeList with the real US-ASCII transcoder: output bytes = reference serialisation for every buffer of N units, every escape mode, XML 1.0/1.1; no access outside the buffer'}
+CLAIMS = {'formatter': 'XMLFormatter::formatBuf/specialFormat/handleUnEscapedChars/writeCharRef/getCharRef/inEscapeList with a 7-bit transcoder stub (US-ASCII contract): output bytes = reference serialisation for every buffer of N units, every escape mode, XML 1.0/1.1; no access outside the buffer'}
 ASSUMPTIONS = ['input is well-formed UTF-16', 'target = byte collector', 'XMLFormatter object built field by field (constructor needs the transcoding service)', 'fixed-block memory manager for the cached entity references', 'hook: the formatter\'s 16 KB staging buffer instantiated at 64 bytes (XERCES_VERIF_TMPBUF); the code is parametric in this constant']
 T10 = '_ZN11xercesc_4_010XMLChar1_019fgCharCharsTable1_0E'
 T11 = '_ZN11xercesc_4_010XMLChar1_119fgCharCharsTable1_1E'
 HARNESSES = [
  dict(name='formatter', entry='harness_formatter', srcs=['C12/formatter.cpp'],
-      tus=['framework/XMLFormatter.cpp', 'util/XMLASCIITranscoder.cpp', 'util/XMLString.cpp', 'util/XMLChar.cpp'], const_tables=[T10, T11],
-      defs={'quick': {'N': 2, 'XERCES_VERIF_TMPBUF': 64}, 'thorough': {'N': 3, 'XERCES_VERIF_TMPBUF': 64}}, unwind={'quick': 3, 'thorough': 3}, unwind_cap=16, timeout={'quick': 400, 'thorough': 1700}),
+      tus=['framework/XMLFormatter.cpp', 'util/XMLString.cpp', 'util/XMLChar.cpp'], const_tables=[T10, T11],
+      defs={'quick': {'N': 2, 'XERCES_VERIF_TMPBUF': 64}, 'thorough': {'N': 3, 'XERCES_VERIF_TMPBUF': 64}}, unwind={'quick': 2, 'thorough': 2}, unwind_cap=16, timeout={'quick': 600, 'thorough': 1700}),
 ]
 LEVEL_TEXT = ('Bounded model checking of the real escaping/transcoding layer of the serialiser against a reference serialisation, for ALL inputs of N UTF-16 units x escape modes x XML versions: '
               'XMLFormatter escapes exactly the characters its mode requires and writes every unrepresentable code point as a character reference (supplementary characters as one reference).')
-LEVEL_NOTE = ('NOT claimed: DOMLSSerializer tree walk, namespace fix-up, CDATA splitting, re-parse equality (whole-system). Output encoding: US-ASCII (real transcoder); N = 2 units (quick) / 3. '
+LEVEL_NOTE = ('NOT claimed: DOMLSSerializer tree walk, namespace fix-up, CDATA splitting, re-parse equality (whole-system). Output encoding: 7-bit stub with the US-ASCII transcoder contract (real transcoders: C05); N = 2 units (quick) / 3. '
               'Known finding listed in known_findings.json (read one unit past the buffer in specialFormat).')
+
+READY = False
